@@ -17,6 +17,7 @@ MODULES = [
     "inimodel",
     "netaddr",
     "ringmodel",
+    "crc",
 ]
 
 
